@@ -15,6 +15,11 @@ def silence():
     The library prints from constructors, setters and parsers; only the parent process
     prints the protocol lines.
     """
+    if os.environ.get("VF_STACKS"):
+        import faulthandler
+        import signal
+        faulthandler.register(signal.SIGUSR1, file=open("/tmp/vf-stack-%d.txt" % os.getpid(), "w"),
+                              all_threads=True)
     if os.environ.get("VF_NOSILENCE"):
         return
     devnull = os.open(os.devnull, os.O_WRONLY)
